@@ -503,6 +503,9 @@ func callSSA(i *interpreter, caller *frame, callpos token.Pos, fn *ssa.Function,
 		if ext := externals[full]; ext != nil {
 			return ext(fr, args)
 		}
+		if skipInits[full] {
+			return nil
+		}
 		if fn.Blocks == nil {
 			if fn.Name() == "init" || strings.HasPrefix(fn.Name(), "init#") {
 				return nil // package initialiser of a body-less package
